@@ -24,13 +24,14 @@ Var(iv, ov, nin, nout, ramp) == [inVoa |-> iv, outVoa |-> ov, nIn |-> nin, nOut 
 MCVariants == {Var(0, 0, 16, 0, 0), Var(1500000, 2 * dB, 12, 2, 0), Var(0, 1 * dB, 12, 0, 1)}
 MCTilts    == {0, 0 - 1500000}
 MCPinTots  == {0 - 25 * dB, 0 - 10 * dB, 0, 6 * dB, 12 * dB}
-MCPinTotsQuick == {0 - 25 * dB, 0 - 10 * dB, 6 * dB, 12 * dB}
+MCPinTotsQuick == {0 - 25 * dB, 6 * dB, 12 * dB}
 
 Emit == Len(hist) < MaxCross \/ PrintT("@@" \o ToJson([amp |-> amp, set |-> set, hist |-> hist]))
 
 (* ---- NF sweep laws of LineElements: checked here on an integer min/max-NF curve, and shown to reject   ---- *)
 (* ---- the curves a defect would produce (TLC evaluates the ASSUMEs before exploring)                        ---- *)
-SwCfg == [gainMin |-> 15 * dB, flatMax |-> 25 * dB, nfMin |-> 6 * dB, nfMax |-> 10 * dB, minmax |-> 1]
+SwCfg == [gainMin |-> 15 * dB, flatMax |-> 25 * dB, nfMin |-> 6 * dB, nfMax |-> 10 * dB, minmax |-> 1, poly |-> 0, dual |-> 0]
+SwPoly == [SwCfg EXCEPT !.minmax = 0, !.poly = 1]
 \* ideal curve: nfMax + dB-for-dB padding below gainMin, linear nfMax -> nfMin inside the range, flat above
 NfIdeal(g) == IF g < SwCfg.gainMin THEN SwCfg.nfMax + (SwCfg.gainMin - g)
               ELSE IF g <= SwCfg.flatMax
@@ -41,11 +42,16 @@ Curve(f(_)) == [k \in 1..16 |-> [g |-> SwGains[k], nf |-> f(SwGains[k])]]
 NoPadding(g)    == IF g < SwCfg.gainMin THEN SwCfg.nfMax ELSE NfIdeal(g)    \* padding lost
 Bump(g)         == IF g = 20 * dB THEN NfIdeal(g) + dB ELSE NfIdeal(g)      \* not monotone
 Shifted(g)      == NfIdeal(g) + 500000                                      \* wrong end points
+Extrapolated(g) == IF g > SwCfg.flatMax THEN SwCfg.nfMin + (g - SwCfg.flatMax) \div 4 ELSE NfIdeal(g)   \* rises above flatMax
+Undershoot(g)   == IF g > SwCfg.flatMax THEN SwCfg.nfMin - (g - SwCfg.flatMax) \div 4 ELSE NfIdeal(g)   \* keeps falling
 AllSweepLaws(pts) == /\ SweepNfMinAtFlatMax(SwCfg, pts, 0) /\ SweepNfMaxAtGainMin(SwCfg, pts, 0)
                      /\ SweepNonIncreasing(SwCfg, pts, 0) /\ SweepDbForDbBelowMin(SwCfg, pts, 0)
+                     /\ SweepNonIncreasingExtended(SwCfg, pts, 0) /\ SweepClampAboveMax(SwPoly, pts, 0)
 ASSUME AllSweepLaws(Curve(NfIdeal))
 ASSUME ~SweepDbForDbBelowMin(SwCfg, Curve(NoPadding), 0)
 ASSUME ~SweepNonIncreasing(SwCfg, Curve(Bump), 0)
+ASSUME ~SweepNonIncreasingExtended(SwPoly, Curve(Extrapolated), 1)
+ASSUME SweepNonIncreasingExtended(SwPoly, Curve(Undershoot), 0) /\ ~SweepClampAboveMax(SwPoly, Curve(Undershoot), 3)
 ASSUME ~SweepNfMinAtFlatMax(SwCfg, Curve(Shifted), 11000) /\ ~SweepNfMaxAtGainMin(SwCfg, Curve(Shifted), 11000)
 
 \* synthetic min/max-NF library entries for the NF sweeps (the harness writes them as equipment JSON; entries the
